@@ -10,6 +10,7 @@ import (
 
 	"verif/sa/internal/ai"
 	"verif/sa/internal/report"
+	"verif/sa/internal/world"
 )
 
 func init() {
@@ -402,6 +403,7 @@ func checkC19(c *Ctx) *report.Result {
 	}
 
 	// ---- S-length
+	var lenPaths [4]string
 	for k := 0; k < 4; k++ {
 		fn := lenFns[k+1]
 		o := chObjs[k]
@@ -475,8 +477,52 @@ func checkC19(c *Ctx) *report.Result {
 		}
 		r.Ob("S-length", len(bad) == 0, fmt.Sprintf("channel %d: NRx1 loads %d-t for every t", k+1, maxLen[k]), "", strings.Join(bad, "; "))
 
+		lenPaths[k] = lenPath
 		// ---- S-extra for this channel
 		c.checkNRx4Table(r, k, o, nrx4[k], maxLen[k], lenPath, lePath, enPath[k], dacPath[k], aObj, seqField, powerOn, groups[0])
+	}
+	// who may store a length counter: its NRx1 and NRx4 handlers and its length clock - and never under the
+	// NR52 write (a power cycle keeps the counters on the DMG)
+	{
+		allowed := [4]map[string]bool{}
+		h52 := map[string]bool{}
+		for _, f := range c.evalDecoder(true, 0xFF26, 0xFF26, nil, nil).Direct {
+			h52[fnName(f)] = true
+		}
+		for k := 0; k < 4; k++ {
+			allowed[k] = map[string]bool{}
+			for _, a := range []int{nrx1[k], nrx4[k]} {
+				for _, f := range c.evalDecoder(true, a, a, nil, nil).Direct {
+					allowed[k][fnName(f)] = true
+				}
+			}
+			if lenFns[k+1] != nil {
+				allowed[k][fnName(lenFns[k+1])] = true
+			}
+		}
+		viol := map[string]string{}
+		n := 0
+		c.evalAllEntries(ai.Hooks{
+			Store: func(_ *ai.State, at ssa.Instruction, p *ai.Ptr, keys []ai.CellKey, _ ai.Value, _ bool) {
+				for _, key := range keys {
+					for k := 0; k < 4; k++ {
+						if lenPaths[k] == "" || key.Obj != chObjs[k].ID || key.Path != lenPaths[k] {
+							continue
+						}
+						n++
+						if c.onStack(h52) {
+							viol[fmt.Sprintf("channel %d length counter stored under the NR52 write", k+1)] = c.pos(at)
+						} else if !c.onStack(allowed[k]) {
+							viol[fmt.Sprintf("channel %d length counter stored by %s", k+1, fnName(outerFn(at.Parent())))] = c.pos(at)
+						}
+					}
+				}
+			},
+		}, func(*world.Entry, *ai.State) {})
+		for k, pos := range viol {
+			r.Ob("S-length", false, k, pos, "a length counter changes only through NRx1, NRx4 (reload / extra clock) and the 256 Hz length clock; a power cycle keeps it")
+		}
+		r.Ob("S-length", n > 0, "stores to the length counters examined over every run-phase entry", "", fmt.Sprintf("%d stores", n))
 	}
 	// sibling agreement of the NRx4 tables
 	if t, ok := r.Extra["nrx4_tables"].(map[string][]string); ok {
@@ -571,73 +617,81 @@ func (c *Ctx) checkNRx4Table(r *report.Result, k int, o *ai.Object, addr int, ma
 		for newLE := 0; newLE < 2; newLE++ {
 			for trig := 0; trig < 2; trig++ {
 				for odd := 0; odd < 2; odd++ {
-					for _, lc := range classes {
-						v := ai.NewSymInt(8, false, vsym)
-						v = ai.WithBit(v, 6, newLE == 1)
-						v = ai.WithBit(v, 7, trig == 1)
-						var ls ai.Sym
-						ev := c.evalDecoder(true, addr, addr, func(st *ai.State) {
-							powerOn(st)
-							st.SetCell(o, lePath, ai.NewConstBool(oldLE == 1))
-							st.SetCell(o, dacPath, ai.NewConstBool(true))
-							st.SetCell(o, enPath, ai.NewConstBool(true))
-							ls = c.symCell(st, o, lenPath)
-							st.SetCell(o, lenPath, ai.NarrowInt(c.cellInt(st, o, lenPath), lc.lo, lc.hi))
-							for _, a := range c.objectsOfType(aObj.TypeKey) {
-								x := c.cellInt(st, a, seqField)
-								st.SetCell(a, seqField, ai.WithBit(x, 0, odd == 1))
-							}
-							if k == 0 {
-								c.forceSweepShift(st, o, g1, 0, 0)
-							}
-						}, v)
-						l := c.cellInt(ev.Post, o, lenPath)
-						e := c.cellBool(ev.Post, o, enPath)
-						le := c.cellBool(ev.Post, o, lePath)
-						// documented outcome
-						extra := oldLE == 0 && newLE == 1 && odd == 1 && lc.lo > 0
-						wantOff := extra && lc.lo == 1 && lc.hi == 1 && trig == 0
-						// length after the extra clock
-						wl, wh := lc.lo, lc.hi
-						if extra {
-							wl, wh = wl-1, wh-1
-						}
-						corner := false
-						if trig == 1 {
-							if wl == 0 && wh == 0 {
-								wl, wh = max, max
-								if newLE == 1 && odd == 1 {
-									wl, wh = max-1, max-1
+					for _, lc0 := range classes {
+						for dacOn := 1; dacOn >= 0; dacOn-- {
+							lc := lc0
+							v := ai.NewSymInt(8, false, vsym)
+							v = ai.WithBit(v, 6, newLE == 1)
+							v = ai.WithBit(v, 7, trig == 1)
+							var ls ai.Sym
+							ev := c.evalDecoder(true, addr, addr, func(st *ai.State) {
+								powerOn(st)
+								st.SetCell(o, lePath, ai.NewConstBool(oldLE == 1))
+								// the DAC off forces the channel off, so the status starts equal to the DAC flag
+								st.SetCell(o, dacPath, ai.NewConstBool(dacOn == 1))
+								st.SetCell(o, enPath, ai.NewConstBool(dacOn == 1))
+								ls = c.symCell(st, o, lenPath)
+								st.SetCell(o, lenPath, ai.NarrowInt(c.cellInt(st, o, lenPath), lc.lo, lc.hi))
+								for _, a := range c.objectsOfType(aObj.TypeKey) {
+									x := c.cellInt(st, a, seqField)
+									st.SetCell(a, seqField, ai.WithBit(x, 0, odd == 1))
 								}
-							} else if wl == max && newLE == 1 && odd == 1 {
-								corner = true // see not_decided
+								if k == 0 {
+									c.forceSweepShift(st, o, g1, 0, 0)
+								}
+							}, v)
+							l := c.cellInt(ev.Post, o, lenPath)
+							e := c.cellBool(ev.Post, o, enPath)
+							le := c.cellBool(ev.Post, o, lePath)
+							// documented outcome
+							extra := oldLE == 0 && newLE == 1 && odd == 1 && lc.lo > 0
+							wantOff := extra && lc.lo == 1 && lc.hi == 1 && trig == 0
+							// length after the extra clock
+							wl, wh := lc.lo, lc.hi
+							if extra {
+								wl, wh = wl-1, wh-1
 							}
-						}
-						lenOK := l != nil && ((wl == wh && l.Lo == wl && l.Hi == wl) || (wl != wh && l.HasBase && l.Base == ls && l.Off == wl-lc.lo))
-						var eOK bool
-						if ev, isc := e.Const(); e != nil && isc {
-							eOK = ev == !wantOff
-						}
-						leV, leC := false, false
-						if le != nil {
-							leV, leC = le.Const()
-						}
-						leOK := leC && leV == (newLE == 1)
-						row := fmt.Sprintf("oldLE=%d newLE=%d trigger=%d odd=%d length=%s -> length'=%s on=%s LE=%s", oldLE, newLE, trig, odd, lc.name, relLen(l, ls, max), ai.ValueString(e), ai.ValueString(le))
-						rows = append(rows, row)
-						n++
-						if corner {
-							continue
-						}
-						if !(lenOK && eOK && leOK) {
-							r.Ob("S-extra", false, fmt.Sprintf("channel %d NRx4: oldLE=%d newLE=%d trigger=%d odd-step=%d length=%s", k+1, oldLE, newLE, trig, odd, lc.name), "", fmt.Sprintf("got %s; documented length' in [%d,%d] (relative %+d), channel on=%v, LE=%v", row, wl, wh, wl-lc.lo, !wantOff, newLE == 1))
+							corner := false
+							if trig == 1 {
+								if wl == 0 && wh == 0 {
+									wl, wh = max, max
+									if newLE == 1 && odd == 1 {
+										wl, wh = max-1, max-1
+									}
+								} else if wl == max && newLE == 1 && odd == 1 {
+									corner = true // see not_decided
+								}
+							}
+							lenOK := l != nil && ((wl == wh && l.Lo == wl && l.Hi == wl) || (wl != wh && l.HasBase && l.Base == ls && l.Off == wl-lc.lo))
+							var eOK bool
+							if ev, isc := e.Const(); e != nil && isc {
+								eOK = ev == (dacOn == 1 && !wantOff) // a trigger never turns a channel on while its DAC is off; everything else (length reload, extra clock, LE) is the same
+							}
+							leV, leC := false, false
+							if le != nil {
+								leV, leC = le.Const()
+							}
+							leOK := leC && leV == (newLE == 1)
+							row := fmt.Sprintf("oldLE=%d newLE=%d trigger=%d odd=%d length=%s -> length'=%s on=%s LE=%s", oldLE, newLE, trig, odd, lc.name, relLen(l, ls, max), ai.ValueString(e), ai.ValueString(le))
+							if dacOn == 1 {
+								rows = append(rows, row)
+							} else {
+								row += " (DAC off)"
+							}
+							n++
+							if corner {
+								continue
+							}
+							if !(lenOK && eOK && leOK) {
+								r.Ob("S-extra", false, fmt.Sprintf("channel %d NRx4: oldLE=%d newLE=%d trigger=%d odd-step=%d length=%s DAC=%d", k+1, oldLE, newLE, trig, odd, lc.name, dacOn), "", fmt.Sprintf("got %s; documented length' in [%d,%d] (relative %+d), channel on=%v, LE=%v", row, wl, wh, wl-lc.lo, dacOn == 1 && !wantOff, newLE == 1))
+							}
 						}
 					}
 				}
 			}
 		}
 	}
-	r.Ob("S-extra", n == 64, fmt.Sprintf("channel %d NRx4 decision table evaluated (64 cases)", k+1), "", "")
+	r.Ob("S-extra", n == 128, fmt.Sprintf("channel %d NRx4 decision table evaluated (64 cases x DAC on/off)", k+1), "", "")
 	r.Instances["S-extra"] += n
 	t, _ := r.Extra["nrx4_tables"].(map[string][]string)
 	if t == nil {
